@@ -321,4 +321,12 @@ Definition spec_obs_r (tname : string -> string) (aname : string -> string -> st
 (* C06-g (open): class names stay distinct when lower-cased; and no underscore (association names stay unambiguous) *)
 Definition F_classnames (M : cmodel) : bool :=
   str_nodup (map py_lower (class_names M)) && forallb (fun c => negb (contains_char "_" (c_name c))) M.
-Definition inF (M : cmodel) : bool := F_attrnames M && F_inherited M && F_classnames M.
+(* C06-p (open): a reference r in a class whose foreign-key column r_id is named like a reference or collection FIELD
+   r_id of an ancestor: not refused by the generator, the module does not import *)
+Definition F_inherited_rel (M : cmodel) : bool :=
+  forallb (fun c => let inh := flat_map (fun a => flat_map (fun f => match kind_of M f with
+                                                                     | KRef _ | KColl _ => [f_name f]
+                                                                     | _ => [] end) (own_public_fields M a))
+                                        (ancestors (List.length M) M c) in
+                    forallb (fun n => negb (str_in n inh)) (derived_cols M c)) M.
+Definition inF (M : cmodel) : bool := F_attrnames M && F_inherited M && F_inherited_rel M && F_classnames M.
